@@ -315,6 +315,12 @@ def run_budget_case(case: dict[str, Any]) -> dict[str, Any]:
         elif done < m:
             check(out["code"] == base["code"], "budget-code",
                   f"max_functions={m} was not reached ({done} evaluations) but the exit code is {out['code'].name} instead of {base['code'].name}", sub)
+        else:
+            # the budget equals what the run needs: every evaluation of the unconstrained run was made and delivered, nothing was cut
+            same = [(k, len(r or ())) for k, r in out["stream"]] == [(k, len(r or ())) for k, r in base["stream"]]
+            check(not same or out["code"] == base["code"], "budget-code",
+                  f"max_functions={m} is exactly what the run needs (all {len(ev.calls)} evaluations made and delivered as without a budget) "
+                  f"but the exit code is {out['code'].name} instead of {base['code'].name}", sub)
     return {"calls": len(ev0.calls), "inside": inside, "total_f": total_f}
 
 
